@@ -136,7 +136,7 @@ def gen_perms(rng):
     return sum(1 << b for b in PERM_BITS if rng.random() < 0.5)
 
 
-def gen_pws(rng, limit):
+def gen_pws(rng, limit, r56=False):
     """(owner, user, wrongs) -- printable ASCII (both password preparations are the identity there);
     an empty owner password means: no owner password"""
     def pw(empty=0.2):
@@ -157,8 +157,9 @@ def gen_pws(rng, limit):
     else:
         owner = pw(0.25)
     rights = {user[:limit]}
-    if owner:
-        rights.add(owner[:limit])
+    if owner or r56:
+        rights.add(owner[:limit])                       # Algorithm 9 has no "use the user password instead"
+
     wrongs = []
     for _ in range(2):
         w = pw(0.3)
@@ -226,7 +227,7 @@ def gen_cases(rng, tier):
     for kind, n in plan(tier):
         for _ in range(n):
             mk, limit, cf_names, vfeats = gen_version(rng, kind)
-            owner, user, wrongs = gen_pws(rng, limit)
+            owner, user, wrongs = gen_pws(rng, limit, kind in ('r5', 'v5'))
             doc, feats = gen_doc(rng, cf_names, ALL_FEATS)
             ver = mk(owner, user)
             rnd = [rbytes(rng, 16), rbytes(rng, 16), rbytes(rng, 4)]
@@ -245,7 +246,8 @@ def gen_cases(rng, tier):
             cases.append((s['enc'], {'kind': 'encfail-' + s['kind'], 'nontrivial': True, 'feats': sorted(s['feats'])}))
             continue
         implenc, isoenc = ie[len('(encdoc '):-1], me[len('(encdoc '):-1]
-        pws = [('right', s['user'])] + ([('right', s['owner'])] if s['owner'] and s['owner'] != s['user'] else []) \
+        has_owner = bool(s['owner']) or s['kind'] in ('r5', 'v5')
+        pws = [('right', s['user'])] + ([('right', s['owner'])] if has_owner and s['owner'] != s['user'] else []) \
             + [('wrong', w) for w in s['wrongs']]
         tags = {'kind': s['kind'], 'nontrivial': True, 'feats': sorted(s['feats']), 'no_owner': not s['owner']}
         if s['kind'] == 'v5':
